@@ -61,3 +61,40 @@ def extra(binary, build, tier, rng):
     elif msg:
         yield {"kind": "oracle", "build": build, "request": mk(info[min(info)][0]), "impl": str(info)[:600], "model": "", "oracle": msg}
     yield {"kind": "count", "what": "char-preimage-probes", "n": p.calls}
+    yield from grid_counts(binary, build, prof)
+
+
+def grid_counts(binary, build, prof):
+    """equally many preimages, counted over complete small product grids of words (implementation only): the values of a
+    type that can be written with the grid's words must each be produced by the same number of word sequences."""
+    import itertools
+    from .oracles import parse_ok
+    M = {"8": 8, "16": 16, "32": 32, "64": 64, "128": 128, "size": 64}
+    total = 0
+    for ty, bits, nz in [("nz8", 8, True), ("nz16", 16, True), ("nz32", 32, True), ("nz64", 64, True), ("nzsize", 64, True), ("nz128", 128, True),
+                         ("u128", 128, False), ("i128", 128, False), ("u64", 64, False), ("i8", 8, False)]:
+        wbits = min(bits, 64)
+        S = [0, 1, 2, (1 << wbits) - 1]          # words that are values of the (half-)type themselves
+        per = 2 if bits == 128 else 1            # words per attempt
+        L = 2 * per                              # room for one rejected attempt
+        seqs = list(itertools.product(S, repeat=L))
+        reqs = ["std ty=%s n=1 profile=%s words=%s" % (ty, prof, ",".join(map(str, q))) for q in seqs]
+        rc, res, err = C.run_lines(binary, ["run"], reqs)
+        total += len(reqs)
+        counts = {}
+        for q, o in zip(seqs, res):
+            f = parse_ok(o)
+            if f is None:
+                continue                          # ran out of words (a rejected attempt followed by another): not counted
+            counts[f[0]] = counts.get(f[0], 0) + 1
+        want_values = len(S) ** per - (1 if nz else 0)
+        vals = sorted(set(counts.values()))
+        if len(counts) != want_values or len(vals) != 1:
+            missing = ""
+            if bits == 128 and len(counts) < want_values:
+                allv = {str((a | (b << 64)) if ty != "i128" else ((a | (b << 64)) - (1 << 128) if (b >> 63) else (a | (b << 64)))) for a in S for b in S} - ({"0"} if nz else set())
+                missing = "; never produced: %s" % sorted(allv - set(counts))[:3]
+            yield {"kind": "oracle", "build": build, "request": reqs[1], "requests": reqs[:64], "impl": str(sorted(counts.items())[:8]), "model": "",
+                   "oracle": "%s: over the complete grid of %d word sequences from %s, %d distinct values occur (the grid can express %d) with preimage counts %s - not equally many preimages%s"
+                             % (ty, len(seqs), S, len(counts), want_values, vals[:5], missing)}
+    yield {"kind": "count", "what": "grid-preimage-counts", "n": total}
